@@ -2,7 +2,7 @@
    bool/option/list/prod map to OCaml's; Z, positive, nat stay Coq inductives. *)
 From Coq Require Import Extraction ExtrOcamlBasic.
 From Coq Require Import List ZArith.
-From DuneV Require Import C01_Model C01_Spec.
+From DuneV Require Import Params_gen C01_Model C01_Model2 C01_Spec.
 Extraction Language OCaml.
 Extraction "c01_model.ml"
   c01_upd c01_for c01_at c01_row c01_get c01_set2 c01_rows c01_cols c01_vzero c01_mzero
@@ -20,6 +20,20 @@ Extraction "c01_model.ml"
   c01_tw_mv c01_tw_mtv c01_tw_asdense
   c01_fill c01_vassign c01_mfill c01_mult_transposed c01_norm_sum c01_norm_max c01_mnorm_sum c01_mnorm_inf
   c01_Z_abs c01_Z_abs2 c01_G_absreal c01_G_abs2 c01_Z_cmp4
+  c01_kdesc_of c01_kernel_gen c01_kernel_objs c01_dg_kernel_gen c01_rightmultiply_self_literal c01_leftmultiply_self_literal
+  c01_vec_inplace_objs c01_vec_inplace c01_vec_inplace_self c01_view_binop c01_resize c01_mresize c01_dg_exists
+  c01_rightmultiply_self c01_leftmultiply_self c01_fv1_op c01_fv1_op_l c01_fv1_conv c01_fm11_conv
+  c01_param_dense_mv c01_param_diag_mv
+  c01_param_dense_mtv c01_param_diag_mtv
+  c01_param_dense_umv c01_param_diag_umv
+  c01_param_dense_umtv c01_param_diag_umtv
+  c01_param_dense_umhv c01_param_diag_umhv
+  c01_param_dense_mmv c01_param_diag_mmv
+  c01_param_dense_mmtv c01_param_diag_mmtv
+  c01_param_dense_mmhv c01_param_diag_mmhv
+  c01_param_dense_usmv c01_param_diag_usmv
+  c01_param_dense_usmtv c01_param_diag_usmtv
+  c01_param_dense_usmhv c01_param_diag_usmhv
   c01_Z_ops c01_G_ops c01_P_ops
   c01s_map2 c01s_sum c01s_dot c01s_hdot c01s_mat_vec c01s_transpose c01s_conjm c01s_herm
   c01s_vadd c01s_vsub c01s_vscale c01s_vopp c01s_mat_mul c01s_diag c01s_madd c01s_msub c01s_mscale c01s_mopp
